@@ -221,11 +221,22 @@ pub async fn handle_line_command(
 
     // Use to_bytes() directly for more efficient body collection
     let body = req.into_body().collect().await.unwrap().to_bytes();
-    let input = String::from_utf8_lossy(&body).trim().to_string();
     let renderer: Arc<dyn Renderer + Send + Sync> = match CONFIG.server.output_format.as_str() {
         "json" => Arc::new(JsonRenderer),
         "arrow" => Arc::new(ArrowRenderer),
         _ => Arc::new(UnixRenderer),
+    };
+
+    // A lossy conversion would run (and STORE) a command the client did not send
+    let input = match std::str::from_utf8(&body) {
+        Ok(text) => text.trim().to_string(),
+        Err(_) => {
+            return render_error(
+                "Command is not valid UTF-8",
+                StatusCode::BAD_REQUEST,
+                renderer,
+            );
+        }
     };
 
     if input.is_empty() {
